@@ -268,8 +268,17 @@ func (W) Gen(prop string, seed uint64, tier string) *world.Plan {
 	nT := 2 + r.Intn(5)
 	var tg []int
 	tg = append(tg, corpus[int(seed%uint64(len(corpus)))])
+	var cached []int // targets reached through a caching lookup (Struct / ExportStruct / ExportFunc)
+	for _, c := range corpus {
+		if Targets[c].Kind != "func" {
+			cached = append(cached, c)
+		}
+	}
 	for len(tg) < nT {
 		c := corpus[r.Intn(len(corpus))]
+		if prop == "C12" && len(cached) > 0 && r.Chance(600) {
+			c = cached[r.Intn(len(cached))] // C12 is about lookups: prefer the paths that cache per type / name
+		}
 		dup := false
 		for _, e := range tg {
 			if e == c {
